@@ -121,6 +121,13 @@ def check(run):
         for star in ("*", " * "):
             for p in ("", " ", "\t", "not a version", ch[sc][2]):
                 runs.append({"tag": "wiring", "argv": [codes(x) for x in ["vers", "contains", "vers:%s/%s" % (sc, star), p]]})
+    # dash-led arguments (-1 is a version for some ecosystems; -r, -h, --help, -- look like flags): passed on untouched
+    for e in ECOS:
+        for d in ("-1", "-r", "--reverse", "-h", "--help", "--", "-"):
+            v = rnd.choice(acc[e])
+            runs.append({"tag": "wiring", "argv": [codes(x) for x in [e, "sort", d, v]]})
+            runs.append({"tag": "wiring", "argv": [codes(x) for x in [e, "sort", v, d]]})
+            runs.append({"tag": "wiring", "argv": [codes(x) for x in [e, "compare", d, v]]})
     ch2 = versgen.chains(run, chain=2)      # build metadata (+), tildes, epochs, upper case: nothing may be decoded or folded on the way
     for sc in versgen.SCHEMES:
         for _ in range(6 if quick else 40):
